@@ -59,6 +59,16 @@ CHECKS['C07'] = dict(cat='proof', ref='DESIGN.md section 3 C07',
     text='no-raise obligations at every dereference/division/index of the real tree code under the well-formedness invariant; call-site preconditions (_split: leaf + strictly inside point; _loc: round(ta) < round(tb)); decreases measure for dyadic _split in grid units; trampolining of the recursive search checked syntactically; _LRUDict bound; _create_dependency_tree exception-free with piece_length > 0; constructor dispatch.',
     note='T1,T5,T6; termination of the non-dyadic search and of the dependency-tree loop argued, not mechanised; in-range queries',
     tech=HEAP)
+XDOM = TECH.format(engine='exact polynomial normal form on explicit small tensors (X domain), uninterpreted row-wise user functions with derivative atoms')
+CHECKS['C17'] = dict(cat='proof', ref='DESIGN.md section 3 C17',
+    text='For every solver accepting general noise the real step() is executed under the special declaration (diagonal/scalar/additive) and under the general-noise embedding of the same SDE with the same Brownian increment: identical y1 (and carried state for reversible Heun), generic in f, g (time-dependent), dt, dW, A.',
+    note='T1,T3,T6,T7; dimension-bounded B=2,d=2,m<=2 (stated in evidence)', tech=XDOM)
+CHECKS['C18'] = dict(cat='proof', ref='DESIGN.md section 3 C18',
+    text='parse_return differencing/shapes; SDELogqp augmentation equals its definition and is stateless; per solver: first d components of the augmented step equal the un-augmented step, L increases by dt times a non-negative combination of the integrand at the stages with weights summing to one, exact case f-h=gc gives |c|^2/2*dt; pinv exact case in z3; stable_division body.',
+    note='T1,T5 (pinv g = I),T6,T7; dimension-bounded; stable_division used inside its guard', tech=XDOM + ' + z3')
+CHECKS['C20'] = dict(cat='proof', ref='DESIGN.md section 3 C20',
+    text='Row non-interference by self-composition of every real solver step (B=2): changing row 1 of y0, dW, U, A leaves row 0 identical; permutation equivariance; SDELogqp; Brownian noise drawn at the full sample shape with per-node seeds.',
+    note='T1,T3,T6,T7 (row-wise user functions are the hypothesis); dimension-bounded B=2,d=2,m<=2; adaptive excluded by the property', tech=XDOM)
 REASONS = {}
 checks = []
 for p in props:
